@@ -146,6 +146,11 @@ def cases(tier):
                 d = ini.copy()
                 d.sections.append([sname, [['Zz-Zz' if sname == 'Pair' else ('zz(r)' if sname == 'Potential-Form' else 'Zz'), ALT.get(sname, 'as.zero')]]])
                 out.append(dict(model=mname, op='repeated-section:%s' % sname, pos='end', sep=':', sections=d.to_json(), dup=[sname, ''], orig=[sname, '']))
+                # the repeated section header written with blanks inside the brackets, holding a second definition of the first entry
+                for hdr in (sname + ' ', ' ' + sname, sname + '\t'):
+                    d = ini.copy()
+                    d.sections.append([hdr, [[ini.section(sname)[1][0][0], ALT.get(sname, 'as.zero')]]])
+                    out.append(dict(model=mname, op='repeated-section-blank-variant:%s' % sname, pos='end', sep=':', sections=d.to_json(), dup=[hdr, ''], orig=[sname, '']))
     return out
 
 
